@@ -26,7 +26,9 @@ COMPONENTS = {"real": ["sievelib.managesieve.Client.connect and the mechanism im
                        "random module inside digest_md5 (seeded)"]}
 ASSUMPTIONS = ["RFC 4616 / 7628 / 2831 wire formats as implemented in simkit.mserver (written from memory of the RFCs; the "
                "reference client of the null self-test must satisfy the same decoders)",
-               "a wrong-case authmech may be treated either as naming the mechanism or as naming none"]
+               "a wrong-case authmech may be treated either as naming the mechanism or as naming none",
+               "the digest-challenge always offers charset=utf-8 (RFC 2831's ISO 8859-1 mode for servers without it is not modelled; the client has none either)",
+               "for OAUTHBEARER and LOGIN, which have no separate authorisation id, what the client does with authz_id is not constrained"]
 
 IMPL = ["DIGEST-MD5", "PLAIN", "LOGIN", "OAUTHBEARER"]
 UNKNOWN = ["SCRAM-SHA-1", "GSSAPI", "XOAUTH2"]
